@@ -207,6 +207,9 @@ func (ex *Exec) strConcat(x, y Value) Value {
 	x, y = ex.forceStr(x), ex.forceStr(y)
 	if a, ok := x.(string); ok {
 		if b, ok := y.(string); ok {
+			// copying costs: one step per 8 bytes, so that the step budget also bounds the
+			// amount of text a path can build
+			ex.steps += (len(a) + len(b)) / 8
 			return a + b
 		}
 		if a == "" {
